@@ -1391,6 +1391,14 @@ package hashgraph
 //@   call Set#3 assume[key-spaces] len(events) == 1 ==> string(__argT[[]byte](0)) != HexOf(events[0])
 //@   ensures[written] ret0 == nil && len(events) == 1 ==> __in(HexOf(events[0]), G_raw(s.db)) && __seqeq(G_raw(s.db)[HexOf(events[0])], __json(DBWrapperOf(events[0])))
 //@   ensures[fail]    ret0 != nil ==> __eq(G_raw(s.db), old(G_raw(s.db)))
+// the two index records of a new event (the listings of C16: "every stored event exactly once, in order, no gaps"):
+// [topological index of that event] => [its hash] and [creator, index of that event] => [its hash], written in the
+// same transaction as the event record, for an event whose hash is in neither the transaction nor the database
+//@   call Set#3 assume[key-spaces-index] string(__argT[[]byte](0)) != string(topologicalEventKey(event.topologicalIndex))
+//@   call Set#2 assert[topo-record] string(__argT[[]byte](0)) == string(topologicalEventKey(event.topologicalIndex)) && string(__argT[[]byte](1)) == HexOf(event)
+//@   call Set#3 assert[pe-record]   string(__argT[[]byte](0)) == string(participantEventKey(CreatorOf(event), event.Body.Index)) && string(__argT[[]byte](1)) == HexOf(event)
+//@   ensures[indexed] ret0 == nil && len(events) == 1 && !old(__in(HexOf(events[0]), G_raw(s.db))) && __lastretT[error]("Get", 1) != nil && IsDbNF(__lastretT[error]("Get", 1)) ==> __in(string(topologicalEventKey(events[0].topologicalIndex)), G_raw(s.db)) && string(G_raw(s.db)[string(topologicalEventKey(events[0].topologicalIndex))]) == HexOf(events[0]) && __in(string(participantEventKey(CreatorOf(events[0]), events[0].Body.Index)), G_raw(s.db)) && string(G_raw(s.db)[string(participantEventKey(CreatorOf(events[0]), events[0].Body.Index))]) == HexOf(events[0])
+//@   loop 1 invariant[indexed] len(events) == 1 && __idx() == 1 && !old(__in(HexOf(events[0]), G_raw(s.db))) && __lastretT[error]("Get", 1) != nil && IsDbNF(__lastretT[error]("Get", 1)) ==> __in(string(topologicalEventKey(events[0].topologicalIndex)), G_pend(tx)) && string(G_pend(tx)[string(topologicalEventKey(events[0].topologicalIndex))]) == HexOf(events[0]) && __in(string(participantEventKey(CreatorOf(events[0]), events[0].Body.Index)), G_pend(tx)) && string(G_pend(tx)[string(participantEventKey(CreatorOf(events[0]), events[0].Body.Index))]) == HexOf(events[0])
 //@   loop 1 invariant[tx]      tx != nil && G_base(tx) == s.db && __eq(G_raw(s.db), old(G_raw(s.db)))
 //@   loop 1 invariant[pending] len(events) == 1 && __idx() == 1 ==> __in(HexOf(events[0]), G_pend(tx)) && __seqeq(G_pend(tx)[HexOf(events[0])], __json(DBWrapperOf(events[0])))
 
